@@ -66,3 +66,27 @@ Theorem C20_replay_does_not_verify :
   process_message put now {| h_st := st; h_tr := [] |} (with_sig m s) = process_message put now {| h_st := st; h_tr := [] |} m.
 Proof. exact unverified_replay. Qed.
 Print Assumptions C20_replay_does_not_verify.
+
+(* ---- the tool that writes the reinit file (client/types GenerateReDKGMessage, Node/GenReDKG.v) ---- *)
+Require Import Node.GenReDKG Node.GenReDKGProofs.
+
+(* a message of the signing phase, wherever it lies in the board log and whoever posted it, leaves the
+   file exactly as it is without it (before the repair 34530eb the file ENDED at the first one) *)
+Theorem C20_generator_ignores_signing_messages :
+  forall l m r, is_signing_event (gm_event m) = true -> gen_redkg (l ++ m :: r) = gen_redkg (l ++ r).
+Proof. exact gen_ignores_signing_messages. Qed.
+Print Assumptions C20_generator_ignores_signing_messages.
+
+(* the file's messages are the log without the signing phase, in the log's order - nothing else is
+   dropped, nothing reordered *)
+Theorem C20_generator_keeps_everything_else :
+  forall log, gf_msgs (gen_redkg log) = filter (fun m => negb (is_signing_event (gm_event m))) log.
+Proof. exact gen_keeps_everything_else. Qed.
+
+(* with one opening proposal in the log the file names that proposal's round, threshold, participants *)
+Theorem C20_generator_header_of_single_proposal :
+  forall l p r, gm_event p = ev_sig_init ->
+  (forall m, In m (l ++ r) -> gm_event m <> ev_sig_init) ->
+  let f := gen_redkg (l ++ p :: r) in
+  gf_id f = gm_round p /\ gf_threshold f = gm_threshold p /\ gf_parts f = gm_parts p.
+Proof. exact gen_header_of_single_proposal. Qed.
